@@ -142,23 +142,32 @@ class RecRng:
 
   def __init__(self, seed):
     self.rs = np.random.RandomState(seed)
-    self.perm, self.swaps = None, []
+    self.perm, self.swaps, self.other_draws = None, [], False
 
   def shuffle(self, x):
     self.rs.shuffle(x)
     self.perm = [int(v) for v in x]
 
   def randint(self, *a, **k):
-    v = int(self.rs.randint(*a, **k))
-    self.swaps.append(v)
+    v = self.rs.randint(*a, **k)
+    if np.ndim(v) == 0:
+      self.swaps.append(int(v))
+    else:
+      self.other_draws = True
     return v
+
+  def __getattr__(self, name):          # any other RandomState method a rewrite may prefer
+    self.other_draws = True
+    return getattr(self.rs, name)
 
 
 class C08(core.Property):
   ID = 'C08'
   RULE = ('cases = (table of 0..8 clients over order-adjacent byte ids in sorted or shuffled insertion order, '
           'extra clients of the larger base of the subset-wrapped roots, op sequence of length 0..6 over '
-          'slice/subset/preprocess_client/preprocess_batch, bulk-get request, point probes, shuffle buffer/seed); '
+          'slice/subset/preprocess_client/preprocess_batch, optionally on a dataset CONSTRUCTED with non-empty client / '
+          'batch preprocessor chains (non-commuting functions), bulk-get request, point probes, shuffle buffer/seed '
+          '(seed 0 and np.int64 seeds included); '
           'subset ops and subset roots built from every kind of id iterable (list, tuple, set, frozenset, dict keys, '
           'generator, iter, filter, islice, filtered base.client_ids()); '
           'all four implementations (in-memory, SQLite, subset over in-memory, subset over SQLite) observed after '
@@ -175,7 +184,13 @@ class C08(core.Property):
   ASSUMPTIONS = ['client ids within one table are distinct (dict keys / PRIMARY KEY)',
                  'shuffled_clients is only observed on non-empty views (on an empty view every implementation '
                  'spins forever; outside the property)',
-                 'client_size(s) means the stored number of examples (what the SQLite implementation reports)']
+                 'client_size(s) means the stored number of examples (what the SQLite implementation reports)',
+                 'a subset whose ids are not all in the view is outside the property: what an implementation does there '
+                 '(the documented ValueError) is recorded in the evidence, not judged',
+                 'with an id outside the view in a get_clients request the KeyError and the request order are required; '
+                 'how many earlier clients were already handed out is not (any prefix is accepted)',
+                 'how buffered_shuffle consumes its rng is not part of the property: agreement of the bufferedShuffle '
+                 'model with the recorded draws is an evidence count (the exact tie belongs to C15)']
   CASE_TIMEOUT_S = 30       # a stream that stops yielding is reported as a failing input, quickly
   QUICK_BUDGET_S = 110
   THOROUGH_BUDGET_S = 560
@@ -213,19 +228,45 @@ class C08(core.Property):
         self.sql_cache.pop(k0)   # the connection is closed when the last view holding it goes away
     return self.sql_cache[key]
 
-  def root(self, kind, big, container='list'):
+  def root(self, kind, big, container='list', init=None):
+    """init = {'c': [tags], 'b': [tags]}: preprocessor chains the dataset is CONSTRUCTED with (in-memory: the public
+    constructor arguments; SQLite: `new(path)` followed by the registrations, its documented entry point)."""
     table = [(h, r) for h, r, sel in big if sel]
     full = [(h, r) for h, r, _ in big]
     sel = [ub(h) for h, _ in table]
+    ctags, btags = (init or {}).get('c', []), (init or {}).get('b', [])
+
+    def mem_of(entries):
+      if not ctags and not btags:
+        return self.mem.InMemoryFederatedData({ub(h): raw_examples(r) for h, r in entries})
+      return self.mem.InMemoryFederatedData(
+          {ub(h): raw_examples(r) for h, r in entries},
+          preprocess_client=self.fdm.ClientPreprocessor([client_fn(t) for t in ctags]),
+          preprocess_batch=self.cds.BatchPreprocessor([batch_fn(t) for t in btags]))
+
+    def sql_of(entries):
+      fd = self.sqlite_of(entries)
+      for t in ctags:
+        fd = fd.preprocess_client(client_fn(t))
+      for t in btags:
+        fd = fd.preprocess_batch(batch_fn(t))
+      return fd
     if kind == 'mem':
-      return self.mem.InMemoryFederatedData({ub(h): raw_examples(r) for h, r in table})
+      return mem_of(table)
     if kind == 'sql':
-      return self.sqlite_of(table)
-    if kind == 'submem':
-      base = self.mem.InMemoryFederatedData({ub(h): raw_examples(r) for h, r in full})
-    else:
-      base = self.sqlite_of(full)
+      return sql_of(table)
+    base = mem_of(full) if kind == 'submem' else sql_of(full)
     return self.fdm.SubsetFederatedData(base, make_ids(container, sel, base))
+
+  @staticmethod
+  def init_ops(case):
+    init = case.get('init') or {}
+    return [[2, t] for t in init.get('c', [])] + [[3, t] for t in init.get('b', [])]
+
+  @staticmethod
+  def shuffle_seed(case):
+    sh = case['shuffle']
+    return np.int64(sh[1]) if len(sh) > 2 and sh[2] else sh[1]
 
   def apply_op(self, fd, op):
     if op[0] == 0:
@@ -270,7 +311,8 @@ class C08(core.Property):
           g2.append(self.ds_obs(c, d))
       except Exception as e:
         e2 = exc_name(e)
-      if g2 != got or e2 != err:
+      k2 = min(len(g2), len(got))
+      if e2 != err or (g2 != got if err is None else g2[:k2] != got[:k2]):
         forms.append(f'get_clients(<{form}> of {req}) gave {[g[0] for g in g2]} / {e2}, the list form '
                      f'{[g[0] for g in got]} / {err}')
     o['getN_forms'] = forms
@@ -486,6 +528,12 @@ class C08(core.Property):
     table = [(h, r) for h, r, s in big if s]
     all_ids = [ub(h) for h, _, _ in big]
     spec = PySpec(table)
+    init = None
+    if rng.random() < 0.35:     # a dataset constructed with non-empty chains, extended later (order must be kept)
+      init = {'c': [rng.choice([1, 2, 3, 7, 0]) for _ in range(rng.choice([1, 1, 2]))],
+              'b': [rng.randrange(0, 4) for _ in range(rng.choice([0, 0, 1]))]}
+      for op in self.init_ops({'init': init}):
+        spec.apply(op)
     ops = []
     for _ in range(rng.choice([0, 1, 2, 2, 3, 3, 4, 5, 6])):
       u = rng.random()
@@ -514,13 +562,14 @@ class C08(core.Property):
            for _ in range(rng.randrange(0, 6))]
     probes = [hx(c) for c in rng.sample(cand, min(len(cand), rng.randrange(1, 5)))]
     return {'kind': 'ops', 'big': big, 'ops': ops, 'req': req, 'probes': probes,
-            'shuffle': [rng.choice([1, 2, 3, 5, 50]), rng.randrange(0, 1000)],
-            'root_container': rng.choice(CONTAINERS)}
+            'shuffle': [rng.choice([1, 2, 3, 5, 50]), rng.choice([0, rng.randrange(0, 1000), rng.randrange(0, 2**32)]),
+                        rng.random() < 0.3],
+            'root_container': rng.choice(CONTAINERS), 'init': init}
 
   def gen_cases(self, rng, tier):
     if tier == 'thorough':
       yield from self.exhaustive()
-    n = 560 if tier == 'quick' else 2400
+    n = 500 if tier == 'quick' else 2400
     for i in range(n):
       if i in ({40} if tier == 'quick' else {40, 1040, 2040}):
         yield self.gen_xproc(rng)
@@ -590,6 +639,10 @@ class C08(core.Property):
       if n and any(sorted(rec.get('shuffled', [])[t * n:(t + 1) * n]) != ids for t in range(3)):
         key = key or 'C08/shuffled'
         problems.append(f'{impl}: a pass of shuffled_clients is not every client once: {rec.get("shuffled")}')
+      if n and not (rec.get('shuffled_seed0') == rec.get('shuffled_seed0_again') == rec.get('shuffled_seed0_np')):
+        key = key or 'C08/shuffled'
+        problems.append(f'{impl}: three streams shuffled_clients({spec["buffer"]}, seed) with seed 0, 0 and np.int64(0) '
+                        f'differ: {rec.get("shuffled_seed0")} / {rec.get("shuffled_seed0_again")}')
     return Outcome(oracle_fail='; '.join(problems[:3]) or None, key=key, nontrivial=True, tags=tags,
                    detail={'this_process': {k: {f: v[f] for f in ('client_ids', 'shuffled') if f in v}
                                             for k, v in mine.items()}})
@@ -611,7 +664,8 @@ class C08(core.Property):
       seqs += [[a, b] for a in others for b in slices[1::3]]
       for ops in seqs:
         yield {'kind': 'ops', 'big': big, 'ops': ops, 'req': [hx(b'b'), hx(b'a'), hx(b'zz'), hx(b'a')],
-               'probes': [hx(b'a'), hx(b'a\x00'), hx(b'c')], 'shuffle': [2, 5],
+               'probes': [hx(b'a'), hx(b'a\x00'), hx(b'c')], 'shuffle': [2, 0 if len(ops) % 2 else 5],
+               'init': [None, {'c': [1], 'b': []}, {'c': [3, 0], 'b': [2]}][(mask + len(ops) + (ops[0][0] if ops else 0)) % 3],
                'root_container': CONTAINERS[(mask + len(ops)) % len(CONTAINERS)]}
     pool = [None] + [hx(b) for b in [b'', b'a', b'a\x00', b'b', b'\xff']]
     quads = [list(q) for q in itertools.product(pool, repeat=4)]
@@ -642,6 +696,12 @@ class C08(core.Property):
         yield {**case, 'quads': q[len(q) // 2:]}
       return
     ops = case['ops']
+    init = case.get('init')
+    if init:
+      yield {**case, 'init': None}
+      for f in ('c', 'b'):
+        for i in range(len(init[f])):
+          yield {**case, 'init': {**init, f: init[f][:i] + init[f][i + 1:]}}
     for i in range(len(ops)):
       yield {**case, 'ops': ops[:i] + ops[i + 1:]}
     big = case['big']
@@ -686,6 +746,9 @@ class C08(core.Property):
 
     # ---- expected mapping after every prefix (plain dict/set code)
     spec = PySpec(table)
+    init_ops = self.init_ops(case)
+    for op in init_ops:          # the chains the dataset was constructed with were registered first
+      spec.apply(op)
     expected = []
 
     def snapshot():
@@ -699,6 +762,10 @@ class C08(core.Property):
     for op in ops:
       spec.apply(op)
       expected.append(snapshot())
+    # a subset whose ids are not all in the view is outside the property (the documented behaviour is a
+    # ValueError from the validating constructor): whatever an implementation does there is recorded, not judged
+    ood_step = next((i for i, e in enumerate(expected) if e['error']), None)
+    shuffle_seed = self.shuffle_seed(case)
 
     # ---- the four implementations, observed after every prefix
     impl_obs = {k: [] for k in KINDS}
@@ -706,10 +773,17 @@ class C08(core.Property):
     for kind in KINDS:
       fd, state = None, None
       try:
-        fd = self.root(kind, big, case.get('root_container', 'list'))
+        fd = self.root(kind, big, case.get('root_container', 'list'), case.get('init'))
       except Exception as e:
         state = 'ERR:' + exc_name(e)
       for step in range(len(ops) + 1):
+        if ood_step is not None and step >= ood_step and state is None:
+          try:
+            self.apply_op(fd, ops[step - 1])
+            state = 'OUT-OF-DOMAIN:view'
+          except Exception as e:
+            state = 'OUT-OF-DOMAIN:' + exc_name(e)
+          ctx.count('subset_with_outside_ids/' + state.split(':', 1)[1])
         if step > 0 and state is None:
           try:
             fd = self.apply_op(fd, ops[step - 1])
@@ -721,7 +795,7 @@ class C08(core.Property):
           continue
         try:
           o = self.observe(fd, req, probes)
-          o['interleave'] = self.interleave(fd, o, req, case['shuffle'][1])
+          o['interleave'] = self.interleave(fd, o, req, shuffle_seed)
           prev = views[kind][-1] if views[kind] else None
           o['parent_child'] = (self.parent_child(prev, impl_obs[kind][-1], fd, o)
                                if prev is not None and prev is not fd else [])
@@ -756,10 +830,7 @@ class C08(core.Property):
       for kind in KINDS:
         o = impl_obs[kind][step]
         if exp['error']:
-          if o != 'ERR:' + exp['error']:
-            fail('C08/subset/validation', f'{kind} {where}: expected {exp["error"]} (subset with ids outside the '
-                                          f'view), got {o if isinstance(o, str) else "a view"}')
-          continue
+          continue          # outside the property (see ood_step)
         if isinstance(o, str):
           empty = not exp['ids']
           if empty and 'IndexError' in o and kind in ('mem', 'submem'):
@@ -794,7 +865,10 @@ class C08(core.Property):
           else:
             werr = 'KeyError'
             break
-        if o['getN'] != want or o['getN_err'] != werr:
+        # (with an id outside the view the property fixes the KeyError and the order, not how many of the earlier
+        # clients are handed out before it is raised: any prefix of the valid prefix is accepted)
+        ok_items = (o['getN'] == want) if werr is None else (o['getN'] == want[:len(o['getN'])])
+        if not ok_items or o['getN_err'] != werr:
           fail('C08/get_clients', f'{kind} {where}: get_clients({req}) gave {o["getN"]} / {o["getN_err"]}, '
                                   f'expected {want} / {werr}')
         for h, (sz, ds) in zip(probes, o['probes']):
@@ -839,7 +913,7 @@ class C08(core.Property):
     # ---- shuffled iteration on the final view (non-empty only)
     final = expected[-1]
     if not final['error'] and final['ids']:
-      buf, seed = case['shuffle']
+      buf, seed = case['shuffle'][0], shuffle_seed
       for kind in KINDS:
         fd = views[kind][-1]
         if fd is None:
@@ -879,7 +953,8 @@ class C08(core.Property):
     pr_enc = [ids_enc(ub(h)) for h in probes]
     for kind in KINDS + ['spec']:
       for step in range(len(ops) + 1):
-        lines.append(line('c08.obs', kind, big_enc, sel_enc, [op_enc(o) for o in ops[:step]], req_enc, pr_enc))
+        lines.append(line('c08.obs', kind, big_enc, sel_enc, [op_enc(o) for o in init_ops + ops[:step]], req_enc,
+                          pr_enc))
         idx.append((kind, step))
     answers = ctx.drv.ask(lines)
 
@@ -903,6 +978,8 @@ class C08(core.Property):
         m, o, sp = model[(kind, step)], impl_obs[kind][step], model[('spec', step)]
         if m != sp:
           corr.append(f'model of {kind} differs from the specification model after {step} ops: {m} vs {sp}')
+        if ood_step is not None and step >= ood_step:
+          continue          # outside the property: not compared
         if isinstance(m, str) or isinstance(o, str):
           if m != o:
             corr.append(f'{kind} after {step} ops: impl {o if isinstance(o, str) else "view"} vs model '
@@ -911,6 +988,8 @@ class C08(core.Property):
         canon = {'num': o['num'], 'ids': sorted(o['ids']), 'sizes': sorted(o['sizes']),
                  'clients': sorted(o['clients']), 'clerr': False, 'getN': o['getN'], 'getN_err': o['getN_err'],
                  'probes': o['probes']}
+        if canon['getN_err'] and m['getN_err'] == canon['getN_err'] and canon['getN'] == m['getN'][:len(canon['getN'])]:
+          canon['getN'] = m['getN']     # fewer clients handed out before the KeyError than the lazy model: allowed
         if canon != m:
           diff = [k for k in canon if canon[k] != m[k]]
           text = (f'{kind} after {step} ops: impl and model differ on {diff}: '
@@ -984,11 +1063,14 @@ class C08(core.Property):
     if sorted(out) != list(range(n)):
       problems.append(f'buffered_shuffle(range({n}), {B}) emitted {out}: not every item exactly once')
     perm = rng.perm if rng.perm is not None else []
-    if sorted(perm) != list(range(min(n, B))):
+    if rng.perm is not None and sorted(perm) != list(range(min(n, B))):
       corr.append(f'numpy shuffle oracle is not a permutation of the initial buffer: {perm}')
+    if rng.perm is None:
+      perm = list(range(min(n, B)))
     ans = ctx.drv.ask([line('c08.bshuffle', B, perm, rng.swaps, n)])[0]
-    if ans != out:
-      corr.append(f'bufferedShuffle model {ans} vs impl {out} (perm {perm}, swaps {rng.swaps})')
+    # how buffered_shuffle consumes its rng is not fixed by the property (only "every item exactly once"); the model
+    # is one admissible behaviour for the draws it recorded (the exact tie is C15's). Agreement is recorded.
+    ctx.count('bshuffle_model_agrees' if ans == out and not rng.other_draws else 'bshuffle_model_differs')
     return Outcome(oracle_fail='; '.join(problems) or None, corr_fail='; '.join(corr) or None,
                    key='C08/shuffled' if problems else None, nontrivial=n > B >= 2,
                    tags=('bshuffle', 'n>B' if n > B else 'n<=B'), detail={'impl': out, 'model': ans})
